@@ -116,6 +116,16 @@ def make(shape: Dict[str, Any]) -> Any:
             try:
                 proto.datagram_received(test_pkt, src)  # type: ignore[arg-type]
                 loop.run_ready()
+                second = shape.get('second')
+                if second is not None:
+                    # a stream: a second adversarial datagram from the same sender shortly afterwards (it meets whatever the
+                    # first one left behind: duplicate-guard memory, a deferred truncated query and its timer)
+                    loop.advance_by(second.get('gap', 50))
+                    hdr2 = [wire.Tok(ctx.int('id2', 0, 65535), 2), wire.Tok(second.get('flags', 0), 2)] + [wire.Tok(c, 2) for c in second['counts']]
+                    body2: List[bytes] = [qb] if second.get('lead_question') else []
+                    body2 += [wire.sym_octet(ctx.int(f'second_octet{i}', 0, 255)) for i in range(second['payload'])]
+                    proto.datagram_received(SymPacket(hdr2 + body2), src)  # type: ignore[arg-type]
+                    loop.run_ready()
             except Exception as e:
                 ctx.check(False, f'{type(e).__name__} escaped datagram_received into the event loop')
                 return
@@ -282,6 +292,16 @@ def obligations(tier: str) -> List[Obligation]:
         if name in ('query-question', 'response-answer'):
             shape2 = {'payload': 1, 'counts': counts, 'flags': flags, 'lead_question': lead, 'timing': 'symbolic', 'gap_max': 1200}
             obs.append(Obligation(f'survive[{name};payload=1;symbolic-timing]', make(shape2), 'survive-timing', shape2, timeout=280 if tier == 'quick' else 1500))
+    TCQ = {'payload': 1, 'counts': [1, 1, 0, 0], 'flags': 0x0200, 'lead_question': True}
+    streams = [('truncated-query-then-query', TCQ, {'payload': 1, 'counts': [1, 0, 0, 0], 'flags': 0, 'lead_question': False, 'gap': 50}),
+               ('truncated-query-then-truncated-query', TCQ, dict(TCQ, gap=450))]
+    if tier != 'quick':
+        streams += [('truncated-query-then-known-answers', TCQ, {'payload': 2, 'counts': [1, 1, 0, 0], 'flags': 0, 'lead_question': True, 'gap': 50}),
+                    ('response-then-response', {'payload': 2, 'counts': [0, 1, 0, 0], 'flags': 0x8400, 'lead_question': False}, {'payload': 2, 'counts': [0, 1, 0, 0], 'flags': 0x8400, 'lead_question': False, 'gap': 10}),
+                    ('query-then-response', {'payload': 2, 'counts': [1, 0, 0, 0], 'flags': 0, 'lead_question': False}, {'payload': 2, 'counts': [0, 1, 0, 0], 'flags': 0x8400, 'lead_question': False, 'gap': 10})]
+    for name, first, second in streams:
+        shape = dict(first, timing='fixed', second=second)
+        obs.append(Obligation(f'survive[stream {name}]', make(shape), 'survive-stream', shape, timeout=280 if tier == 'quick' else 1500))
     chains = [('forward', 1100, None), ('backward', 1100, None), ('forward', 8, 4)] + ([] if tier == 'quick' else [('forward', 4470, None), ('backward', 4460, None), ('backward', 8, 4), ('forward', 130, None), ('backward', 130, None)])
     for direction, cells, broken in chains:
         shape = {'payload': 0, 'counts': [0, 0, 0, 0], 'flags': 0, 'lead_question': False, 'timing': 'fixed', 'chain': [direction, cells, broken]}
@@ -310,7 +330,7 @@ META = {
         '_ServiceBrowserBase.async_update_records', 'ServiceInfo.async_update_records',
     ],
     'bounds': {'symbolic payload octets': '1..3 (quick) / 3..5 (thorough)', 'port': [0, 65535], 'timing': 'content obligations: fixed instants and jitter draws at their lower bound; survive[*;symbolic-timing]: t0, gaps 0..1200 ms and jitter symbolic with one symbolic payload octet', 'datagram length (guard lemma)': [0, 70000], 'label octets (echo lemma)': [1, 63]},
-    'outside': ['streams of more than one adversarial datagram', 'datagrams with more than 12 + question + 6 free octets other than the enumerated compression-pointer chains (survive[pointer-chain *]: 3..4470 pointer cells, id / label octet / TTL / port and in the broken variants the low octet of one pointer symbolic)', 'real sockets'],
+    'outside': ['streams of more than two adversarial datagrams (survive[stream *]: two datagrams with 1..2 free octets each from one sender, 10..450 ms apart)', 'datagrams with more than 12 + question + 6 free octets other than the enumerated compression-pointer chains (survive[pointer-chain *]: 3..4470 pointer cells, id / label octet / TTL / port and in the broken variants the low octet of one pointer symbolic)', 'real sockets'],
     'stubs': env.STUBS + ['test datagram presented as vkit.pkt.SymPacket', '`hash` in zeroconf._dns returns 0 while the symbolic datagram is processed',
                           'echo lemma: decode(errors="replace") of an opaque label returns a text whose re-encoded length m is a solver variable with n <= m <= 3n'],
     'float_sites': ['const._DNS_PTR_MIN_TTL = 1125.0 (exact)'],
